@@ -51,7 +51,8 @@ REQUIRED = ['covered_edits', 'covered_rejected', 'uncovered_edits',
             'uncovered_completed_agree', 'negotiation_pairs',
             'negotiation_agree', 'disjoint_rejected', 'range_edits',
             'hostkey_choices',
-            'hostkey_swaps']
+            'hostkey_swaps', 'impostor_cases',
+            'impostor_controls_completed']
 BUDGET_S = {'quick': 300, 'thorough': 3400}
 CASE_TIMEOUT_S = 60
 
@@ -172,10 +173,25 @@ def gen_cases(tier, seed):
         cases.append(dict(kind='neg', client=c, server=s,
                           chunk=rng.choice(['all', 'random']),
                           cseed=rng.randrange(1 << 30)))
+    # an active impostor: a server holding another key (plain, or wrapped in
+    # a host certificate by a CA nobody trusts) against every shape of client
+    # trust data that does not cover it; plus controls that must complete
+    for imp in ('plain', 'cert_unknown_ca', 'cert_unknown_ca_expired',
+                'cert_user_type', 'genuine_plain', 'genuine_cert'):
+        for trust in ('pinned', 'pinned_other_ca', 'pinned_revoked_ca',
+                      'empty', 'other_host_only', 'ca_only'):
+            for algs in ('default', 'cert_first', 'plain_first'):
+                cases.append(dict(kind='impostor', imp=imp, trust=trust,
+                                  algs=algs,
+                                  kex=fast[len(cases) % len(fast)],
+                                  chunk='all', cseed=len(cases)))
     return cases
 
 
 def signature(case):
+    if case['kind'] == 'impostor':
+        return hashlib.sha1(repr(('imp', case['imp'], case['trust'],
+                                  case['algs'])).encode()).hexdigest()[:16]
     if case['kind'] == 'neg':
         parts = ('neg', repr(case['client']), repr(case['server']))
     else:
@@ -714,6 +730,102 @@ def _run_neg(case, mon, viol):
     return info
 
 
+def _run_impostor(case, mon, viol):
+    """The client has trust data for `testhost`; whoever answers holds either
+       the genuine key / a certificate of the trusted CA (must complete when
+       the trust data covers it) or something else (must fail)"""
+
+    info = {}
+
+    async def main(loop):
+        genuine = apps.host_key('ssh-ed25519', 0)
+        other = apps.host_key('ssh-ed25519', 1)
+        ca = apps.host_key('ssh-ed25519', 5)
+        rogue_ca = apps.host_key('ssh-ed25519', 6)
+        imp, trust = case['imp'], case['trust']
+        pub = lambda k: k.export_public_key().decode().strip()  # noqa: E731
+        lines = {'pinned': [f'testhost {pub(genuine)}'],
+                 'pinned_other_ca': [f'testhost {pub(genuine)}',
+                                     f'@cert-authority elsewhere.example '
+                                     f'{pub(rogue_ca)}'],
+                 'pinned_revoked_ca': [f'testhost {pub(genuine)}',
+                                       f'@revoked * {pub(rogue_ca)}'],
+                 'empty': ['# nothing here'],
+                 'other_host_only': [f'elsewhere.example {pub(other)}'],
+                 'ca_only': [f'@cert-authority testhost {pub(ca)}']}[trust]
+        kh = asyncssh.import_known_hosts('\n'.join(lines) + '\n')
+
+        def cert(key, signer, **kw):
+            return signer.generate_host_certificate(
+                key, 'id', principals=['testhost'], **kw)
+
+        if imp == 'plain':
+            hk, covered = other, False
+        elif imp == 'cert_unknown_ca':
+            hk, covered = (other, cert(other, rogue_ca)), False
+        elif imp == 'cert_unknown_ca_expired':
+            hk, covered = (other, cert(other, rogue_ca, valid_after=1000,
+                                       valid_before=2000)), False
+        elif imp == 'cert_user_type':
+            hk = (other, rogue_ca.generate_user_certificate(
+                other, 'id', principals=['testhost']))
+            covered = False
+        elif imp == 'genuine_plain':
+            hk = genuine
+            covered = trust in ('pinned', 'pinned_other_ca',
+                                'pinned_revoked_ca')
+        else:
+            # (asyncssh then offers the certificate and the plain key)
+            hk = (genuine, cert(genuine, ca))
+            covered = trust in ('ca_only', 'pinned', 'pinned_other_ca',
+                                'pinned_revoked_ca')
+        opts_c = {'kex_algs': [case['kex']]}
+        if case['algs'] == 'cert_first':
+            opts_c['server_host_key_algs'] = [
+                'ssh-ed25519-cert-v01@openssh.com', 'ssh-ed25519']
+        elif case['algs'] == 'plain_first':
+            opts_c['server_host_key_algs'] = [
+                'ssh-ed25519', 'ssh-ed25519-cert-v01@openssh.com']
+        async with scen.Env(loop, server_factory=lambda: apps.RecServer(
+                apps.EventLog()), chunking=case['chunk'], seed=case['cseed'],
+                host_keys=[hk],
+                server_opts=dict(kex_algs=[case['kex']])) as env:
+            ct = asyncio.ensure_future(env.connect(known_hosts=kh, **opts_c))
+            env.san.harness_tasks.add(ct)
+            await env.settle()
+            if not ct.done():
+                ct.cancel()
+            res = (await asyncio.gather(ct, return_exceptions=True))[0]
+            completed = not isinstance(res, BaseException)
+            info.update(completed=completed, covered=covered,
+                        error=None if completed else repr(res)[:100])
+            mon['impostor_cases'] += 1
+            if completed and not covered:
+                viol.append({
+                    'mechanism': 'handshake_completed_with_foreign_host_key',
+                    'detail': f'server presented {imp}, client trust data '
+                              f'{trust}, host key algorithms {case["algs"]}'})
+            elif not completed and covered and imp == 'genuine_plain' and \
+                    case['algs'] == 'default':
+                viol.append({'mechanism': 'genuine_host_key_refused',
+                             'detail': f'{imp} {trust}: {res!r:.100}'})
+            elif not completed and covered and imp == 'genuine_cert' and \
+                    (case['algs'] == 'default' or
+                     (trust == 'ca_only' and case['algs'] == 'cert_first')):
+                viol.append({'mechanism': 'genuine_host_key_refused',
+                             'detail': f'{imp} {trust}: {res!r:.100}'})
+            if completed:
+                mon['impostor_controls_completed'] += 1
+                res.abort()
+            await env.settle()
+            for ev in env.san.drain():
+                viol.append({'mechanism': 'sanitizer_' + ev['kind'],
+                             'detail': ev})
+
+    scen.run(main)
+    return info
+
+
 def run_case(case):
     mon = {k: 0 for k in REQUIRED}
     viol = []
@@ -721,6 +833,8 @@ def run_case(case):
     try:
         if case['kind'] == 'edit':
             info = _run_edit(case, mon, viol)
+        elif case['kind'] == 'impostor':
+            info = _run_impostor(case, mon, viol)
         else:
             info = _run_neg(case, mon, viol)
     except vloop.QuiescentHang as exc:
